@@ -7,7 +7,7 @@ CFG_DEFS = ['-DHAVE_DIRECT_FLOAT_FORMAT=1', '-DHAVE_CONTRIB', '-DHAVE_PPOLL', '-
 
 
 def build(unit_name, sources, repo, verif, extra=()):
-    wd = os.path.join(verif, '.work', unit_name)
+    wd = os.path.join(verif, '.work', 'bin')
     os.makedirs(wd, exist_ok=True)
     drv = os.path.join(verif, 'replay', unit_name + '.cpp')
     srcs = [os.path.join(repo, s) for s in sources]
@@ -20,14 +20,17 @@ def build(unit_name, sources, repo, verif, extra=()):
         for fn in sorted(os.listdir(d)):
             if fn.endswith('.h'):
                 h.update(open(os.path.join(d, fn), 'rb').read())
-    exe = os.path.join(wd, 'replay_' + h.hexdigest()[:12])
+    exe = os.path.join(wd, 'replay_' + unit_name + '_' + h.hexdigest()[:12])
     if not os.path.exists(exe):
         cmd = ['g++', '-std=c++17', '-O1', '-w', '-fno-access-control', '-DEBUSD_VERIF', '-DVERIF_NATIVE', '-D_Bool=bool'] + CFG_DEFS + list(extra) + [
             '-I', os.path.join(repo, 'src'), '-I', os.path.join(verif, 'units', unit_name), '-I', os.path.join(verif, 'model'),
             drv] + srcs + ['-o', exe, '-lpthread']
+        tmp = exe + '.tmp%d' % os.getpid()
+        cmd[cmd.index('-o') + 1] = tmp
         p = subprocess.run(cmd, capture_output=True, text=True, timeout=600)
         if p.returncode != 0:
             raise RuntimeError('replay driver build failed: ' + p.stderr[-1500:])
+        os.replace(tmp, exe)
     return exe
 
 
